@@ -30,7 +30,8 @@ from .base import (
     ValidationError,
 )
 from ..config import Config
-from ..errors import StorageError
+from ..auth import Action
+from ..errors import StorageError, AuthenticationError
 
 
 # ids: b'\x00<32 bytes of id>'
@@ -669,6 +670,13 @@ class LMDBStorage(BaseStorage):
             raise StorageError("invalid: Bad JSON")
 
         await self.validate_event(event, Config)
+        # check authentication
+        # (events the relay writes itself with add_service_event, such as role
+        # assignments, are signed by the service key and not subject to the save roles)
+        if event.pubkey != self.service_pubkey and not await self.authenticator.can_do(
+            auth_token, Action.save.value, event
+        ):
+            raise AuthenticationError("restricted: permission denied")
 
         if not event.is_ephemeral:
             # the write happens later, on the writer thread: make sure now that
